@@ -85,6 +85,19 @@ def gen(tier, rng):
                                             chk=("pipeline", "ret_ok"), g=g, **kw))
                 cases.append(rz.resize_case(pt, sw, sh, dw, dh, alpha=True, src_c={"g": "data", "v": x}, log=("dst",),
                                             chk=("pipeline", "ret_ok", "same_alpha"), g=g, **kw))
+    if tier != "quick":
+        # seeded random geometries / crops / algorithms: recoloured transparent pixels never show
+        for i in range(5000):
+            kw = rz.random_resize_kw(rng, pts=ALPHA_PTS, algs=[("conv", 1), ("conv", 1), ("interp", 1), ("ss", 1), ("ss", 2), ("ss", 3)], maxdim=24)
+            pt, sw, sh = kw["pt"], kw["sw"], kw["sh"]
+            a = image(pt, sw, sh, rng, "zero_some")
+            b = recolour(pt, a, rng)
+            g += 1
+            common = dict(alg=kw["alg"], flt=kw["flt"], m=kw["m"], box=kw["box"], Q=kw["Q"], cpu=kw["cpu"])
+            cases.append(rz.resize_case(pt, sw, sh, kw["dw"], kw["dh"], alpha=True, src_c={"g": "data", "v": a}, log=("dst",),
+                                        chk=("pipeline", "ret_ok", "alpha_zero"), g=g, **common))
+            cases.append(rz.resize_case(pt, sw, sh, kw["dw"], kw["dh"], alpha=True, src_c={"g": "data", "v": b}, log=("dst",),
+                                        chk=("pipeline", "ret_ok", "alpha_zero", "memo_exact"), g=g, **common))
     # types without alpha: the option changes nothing (and no alpha phase appears in the hook trace)
     for pt in ("U8", "U8x3", "U16", "U16x3", "I32", "F32", "F32x3"):
         for (sw, sh, dw, dh) in geoms[:3]:
